@@ -36,7 +36,10 @@ class _Svc:
 REGISTERED = ('SUM8', 'CRC16', 'CRC32', 'CRC64', 'Xor8', 'Add16', 'Mix32', 'Mix64')   # case-sensitive
 
 
+ENABLED = True      # monitor side: the driver empties / restores the registry between encodes (case kind U)
+
+
 def create_checksum_service(name):
-    if name in REGISTERED:
+    if ENABLED and name in REGISTERED:
         return _Svc(name)
     return None
